@@ -28,8 +28,23 @@ STUBS = r"""
 #[derive(Clone, Copy, PartialEq, Eq)] struct TapNodeHash(u8);
 #[derive(Clone, PartialEq, Eq)] struct ScriptBuf(u8);
 #[derive(Clone, PartialEq, Eq)] struct ControlBlock(u8);
-struct BitcoinPublicKey(u8);
-struct XOnlyPublicKey(u8);
+#[derive(Clone, PartialEq, Eq)] struct BitcoinPublicKey(u8);
+#[derive(Clone, PartialEq, Eq)] struct XOnlyPublicKey(u8);
+uninterp spec fn bpk_uncompressed(k: BitcoinPublicKey) -> bool;
+impl MiniscriptKey for BitcoinPublicKey {
+    type Sha256 = u8; type Hash256 = u8; type Ripemd160 = u8; type Hash160 = u8;
+    spec fn spec_is_uncompressed(&self) -> bool { bpk_uncompressed(*self) }
+    #[verifier::external_body] fn is_uncompressed(&self) -> (r: bool) { unimplemented!() }
+    spec fn spec_is_x_only_key(&self) -> bool { false }
+    fn is_x_only_key(&self) -> (r: bool) { false }
+}
+impl MiniscriptKey for XOnlyPublicKey {
+    type Sha256 = u8; type Hash256 = u8; type Ripemd160 = u8; type Hash160 = u8;
+    spec fn spec_is_uncompressed(&self) -> bool { false }
+    fn is_uncompressed(&self) -> (r: bool) { false }
+    spec fn spec_is_x_only_key(&self) -> bool { true }
+    fn is_x_only_key(&self) -> (r: bool) { true }
+}
 mod absolute { use vstd::prelude::*; verus!{ pub struct LockTime(pub u32); } }
 mod relative { use vstd::prelude::*; verus!{ pub struct LockTime(pub u32); } }
 #[verifier::external_body]
@@ -288,8 +303,26 @@ def leaves(vf):
                 Clause("missing_preimage_is_unavailable", ("C03",), "wkind(r) != 0 ==> wkind(r) == 1"),
                 Clause("is_the_preimage", ("C01",), "wkind(r) == 0 ==> wseq(r).len() == 1 && (wseq(r)[0] matches Placeholder::%sPreimage(x) && cloned(*h, x))" % var),
             ]))
+        # raw pkh: the key behind the hash may be unknown to us (=> unavailable), signatures cannot be forged
+        vf.fn(SAT, W % "pkh_public_key", qual="Witness", props=P, rewrites=[lit("R7", "bitcoin::PublicKey", "BitcoinPublicKey", required=False)], contract=Contract(ensures=[
+            Clause("stack_iff_key_known", ("C01", "C02"), "wkind(r) == 0 <==> (if Ctx::spec_sig_type() is Ecdsa { sat.raw_pkh_pk(pkh) is Some } else { sat.raw_pkh_x_only_pk(pkh) is Some })"),
+            Clause("unknown_key_is_unavailable", ("C03",), "wkind(r) != 0 ==> wkind(r) == 1"),
+            Clause("is_the_key_push", ("C01",), "wkind(r) == 0 ==> wseq(r).len() == 1 && (wseq(r)[0] matches Placeholder::PubkeyHash(h, n) && h == *pkh)"),
+        ]))
+        vf.fn(SAT, W % "pkh_signature", qual="Witness", props=P, contract=Contract(ensures=[
+            Clause("stack_iff_sig_available", ("C01", "C02"), "wkind(r) == 0 <==> (match leaf_hash { Some(lh) => sat.raw_pkh_tap_leaf_sig(&(*pkh, lh)) is Some, None => sat.raw_pkh_ecdsa_sig(pkh) is Some })"),
+            Clause("missing_sig_is_impossible", ("C03",), "wkind(r) != 0 ==> wkind(r) == 2"),
+            Clause("is_sig_then_key", ("C01",), "wkind(r) == 0 ==> wseq(r).len() == 2 && (wseq(r)[1] matches Placeholder::PubkeyHash(h, n) && h == *pkh) && (match leaf_hash { Some(lh) => (wseq(r)[0] matches Placeholder::SchnorrSigPkHash(h, l, sz) && h == *pkh && l == lh), None => (wseq(r)[0] matches Placeholder::EcdsaSigPkHash(h) && h == *pkh) })"),
+        ]))
     S = SATIMPL + "/fn:%s"
     with vf.block("impl<Pk: MiniscriptKey + ToPublicKey> Satisfaction<Placeholder<Pk>>"):
+        vf.fn(SD, S % "raw_pk_h", qual="Satisfaction", props=P, rewrites=[const_as_fn("TRIVIAL")], contract=Contract(ensures=[
+            Clause("dsat_is_zero_key", ("C01", "C02"), "wkind(r.dissat.stack) == 0 ==> wseq(r.dissat.stack).len() == 2 && wseq(r.dissat.stack)[0] == Placeholder::<Pk>::PushZero && (wseq(r.dissat.stack)[1] matches Placeholder::PubkeyHash(h, n) && h == *pkh)"),
+            Clause("dsat_unsigned_no_locks", ("C03", "C17"), "no_locks_no_sig(r.dissat) && wkind(r.dissat.stack) != 2"),
+            Clause("sat_iff_sig", ("C01", "C02"), "wkind(r.sat.stack) == 0 <==> (match leaf_hash { Some(lh) => stfr.raw_pkh_tap_leaf_sig(&(*pkh, lh)) is Some, None => stfr.raw_pkh_ecdsa_sig(pkh) is Some })"),
+            Clause("no_sig_is_impossible", ("C03",), "wkind(r.sat.stack) != 0 ==> wkind(r.sat.stack) == 2"),
+            Clause("sat_is_signed_no_locks", ("C03", "C17"), "r.sat.has_sig && no_locks(r.sat)"),
+        ]))
         vf.fn(SD, S % "pk_k", qual="Satisfaction", props=P, rewrites=[const_as_fn("TRIVIAL")], contract=Contract(ensures=[
             Clause("dsat_is_zero", ("C01", "C02"), "same(r.dissat, t_elems(seq![Placeholder::<Pk>::PushZero]))"),
             Clause("sat_iff_sig", ("C01", "C02"), "wkind(r.sat.stack) == 0 <==> sig_available(stfr, pk, leaf_hash)"),
@@ -472,7 +505,10 @@ def step_cases(mall):
                  Clause("sat_is_sat_x_or_sat_z_dsat_x", sel, "is_choice(%s, r.sat, a(%s.sat), t_seq(a(%s.sat), a(%s.dissat)))" % (M, L, R, L))])
     case("OrI", [Clause("dsat_is_dsat_x_1_or_dsat_z_0", sel, "is_choice(%s, r.dissat, t_then(a(%s.dissat), one()), t_then(a(%s.dissat), zero()))" % (M, L, R)),
                  Clause("sat_is_sat_x_1_or_sat_z_0", sel, "is_choice(%s, r.sat, t_then(a(%s.sat), one()), t_then(a(%s.sat), zero()))" % (M, L, R))])
-    for v in ("RawPkH", "Multi", "SortedMulti", "MultiA", "SortedMultiA", "Thresh"):
+    # raw pkh: the key behind the hash may be unknown (dissatisfaction then unavailable although the type says d):
+    # the row is claimed, the d-invariant is not
+    case("RawPkH", [Clause("row", ALL, "*term matches Terminal::RawPkH(pkh) ==> (wkind(r.dissat.stack) == 0 ==> wseq(r.dissat.stack).len() == 2 && wseq(r.dissat.stack)[0] == zero::<Pk>() && (wseq(r.dissat.stack)[1] matches Placeholder::PubkeyHash(h, n) && h == pkh)) && no_locks_no_sig(r.dissat) && wkind(r.dissat.stack) != 2 && (wkind(r.sat.stack) == 0 <==> (match leaf_hash { Some(lh) => stfr.raw_pkh_tap_leaf_sig(&(pkh, lh)) is Some, None => stfr.raw_pkh_ecdsa_sig(&pkh) is Some })) && (wkind(r.sat.stack) != 0 ==> wkind(r.sat.stack) == 2) && r.sat.has_sig && no_locks(r.sat)")], claim_inv=False)
+    for v in ("Multi", "SortedMulti", "MultiA", "SortedMultiA", "Thresh"):
         out.append((v, "*term is %s" % v, []))
     return out
 
@@ -483,11 +519,11 @@ def steps(vf):
     vf.raw(T.ABS)
     vf.trust("PartialEqSpecImpl for Base/Input/Dissat", "derived PartialEq on field-less enums is structural equality")
     vf.raw(STEP_SPEC)
-    vf.trust("excluded_arm (external_body)", "R9: arms RawPkH, Multi, SortedMulti, MultiA, SortedMultiA, Thresh of sat_dissat are not verified by Verus; nothing is assumed about their result")
+    vf.trust("excluded_arm (external_body)", "R9: arms Multi, SortedMulti, MultiA, SortedMultiA, Thresh of sat_dissat are not verified by Verus; nothing is assumed about their result")
     vf.trust("sat_clone (external_body)", "R13: `x.clone()` on a Satisfaction (derived Clone) returns a value equal to x")
     vf.trust("provider_consistent (precondition)", "an AssetProvider answers for one transaction: the absolute (relative) locks it confirms all have the same unit")
     P = ("C01", "C02", "C03", "C17", "C11")
-    excl = {k: "excluded_arm()" for k in ("Terminal::RawPkH", "Terminal::Multi(", "Terminal::SortedMulti(", "Terminal::MultiA(", "Terminal::SortedMultiA(", "Terminal::Thresh(")}
+    excl = {k: "excluded_arm()" for k in ("Terminal::Multi(", "Terminal::SortedMulti(", "Terminal::MultiA(", "Terminal::SortedMultiA(", "Terminal::Thresh(")}
     with vf.block("impl<Pk: MiniscriptKey + ToPublicKey> Satisfaction<Placeholder<Pk>>"):
         for mall, name, minfn in ((True, "sat_dissat_step_mall", "Self::minimum_mall"), (False, "sat_dissat_step_nonmall", "Self::minimum")):
             M = "true" if mall else "false"
